@@ -3,7 +3,10 @@
 package verifsim
 
 import (
+	"bytes"
 	"fmt"
+	"io"
+	"net/http"
 	"os"
 	"path/filepath"
 	"sync"
@@ -32,8 +35,8 @@ import (
 func init() {
 	Register(&Check{
 		ID: "C27", World: "E/config-reload", Gen: genConfig, Run: runConfig,
-		OwnProbes: []string{"applied_change", "rejected_invalid", "warning_only_content", "unchanged_content", "concurrent_reloads_interleaved", "unreadable_file"},
-		Real:      []string{"config.fileConfig (NewConfig, Reload, validation, hashing, getters)", "internal/configwatcher.ConfigWatcher (sequential runs)", "real temporary files"},
+		OwnProbes: []string{"applied_change", "rejected_invalid", "warning_only_content", "unchanged_content", "concurrent_reloads_interleaved", "unreadable_file", "fetch_in_flight", "newest_content_checked_after_overlapping_reloads"},
+		Real:      []string{"config.fileConfig (NewConfig, Reload, validation, hashing, getters)", "internal/configwatcher.ConfigWatcher (sequential runs)", "real temporary files, or the same served through http.DefaultClient's transport (URL sources)"},
 		Stub:      []string{"pubsub (SimPubSub)", "clock (bubble clock)", "task scheduling (TaskSched at simhook yield points in Reload)"},
 	})
 }
@@ -64,6 +67,11 @@ func genConfig(r *Rng, tier string, p *Plan) {
 	if conc {
 		p.N["concurrent"] = 1
 		p.N["stick_pct"] = int64(PickOf(r, 0, 30, 60))
+		if r.Bool(0.5) {
+			// configuration and rules are fetched from URLs: the fetch is a point
+			// where a reload can be overtaken
+			p.N["url"] = 1
+		}
 		// tasks: triggers and writers
 		nt := r.Range(2, 3)
 		nw := r.Range(0, 2)
@@ -120,6 +128,28 @@ type cfgWorld struct {
 	applies                   int
 	// listeners
 	calls [2][]string
+	// URL sources: the transport lets the scheduler in after it has chosen the body
+	fetchYield func()
+	quiet      int // >0: the model itself is reading the sources
+	// logical time of the last completed write and of each trigger's start
+	seq, lastWrite, lastTrigger int
+}
+
+// RoundTrip serves cfg.yaml and rules.yaml from the directory over "HTTP".
+func (w *cfgWorld) RoundTrip(req *http.Request) (*http.Response, error) {
+	b, err := os.ReadFile(filepath.Join(w.dir, filepath.Base(req.URL.Path)))
+	if err != nil {
+		return nil, fmt.Errorf("source unavailable: %w", err)
+	}
+	// only after the last source of a reload has been chosen (the rules come
+	// second): everything one reload reads is then from one moment, which is
+	// the moment the model folds
+	if w.quiet == 0 && w.fetchYield != nil && filepath.Base(req.URL.Path) == "rules.yaml" {
+		w.out.Probe("fetch_in_flight")
+		w.fetchYield()
+	}
+	return &http.Response{StatusCode: 200, Status: "200 OK", Proto: "HTTP/1.1", ProtoMajor: 1, ProtoMinor: 1,
+		Header: http.Header{"Content-Type": {"application/x-yaml"}}, Body: io.NopCloser(bytes.NewReader(b)), Request: req}, nil
 }
 
 func (w *cfgWorld) write(target string, v int) {
@@ -146,6 +176,8 @@ func (w *cfgWorld) write(target string, v int) {
 func (w *cfgWorld) onReloadEntry() {
 	w.mu.Lock()
 	defer w.mu.Unlock()
+	w.quiet++
+	defer func() { w.quiet-- }()
 	fresh, err := config.NewConfig(w.opts)
 	if fresh == nil {
 		w.out.Probe("rejected_invalid")
@@ -168,6 +200,8 @@ func (w *cfgWorld) onReloadEntry() {
 func (w *cfgWorld) check(where string) {
 	w.mu.Lock()
 	defer w.mu.Unlock()
+	w.quiet++
+	defer func() { w.quiet-- }()
 	mh, rh := w.cfg.GetHashes()
 	w.out.Logf("%s running=%s/%s expected=%s/%s applies=%d listener_calls=%d,%d files=cfg%d,rules%d", where, short(mh), short(rh), short(w.appliedMain), short(w.appliedRules), w.applies, len(w.calls[0]), len(w.calls[1]), w.curCfg, w.curRules)
 	const site = "config.fileConfig.Reload"
@@ -201,6 +235,27 @@ func (w *cfgWorld) check(where string) {
 	}
 }
 
+// checkNewest needs no knowledge of how Reload is built: when some trigger began
+// after the last change to the sources, and startup would accept the sources as
+// they are now, then once every trigger has returned the running configuration
+// is that newest content (an overtaken reload must not put older content back).
+func (w *cfgWorld) checkNewest() {
+	if w.lastTrigger < w.lastWrite {
+		return
+	}
+	w.quiet++
+	defer func() { w.quiet-- }()
+	fresh, _ := config.NewConfig(w.opts)
+	if fresh == nil {
+		return
+	}
+	w.out.Probe("newest_content_checked_after_overlapping_reloads")
+	fm, fr := fresh.GetHashes()
+	if mh, rh := w.cfg.GetHashes(); mh != fm || rh != fr {
+		w.out.Violate("C27", "newest_change_lost", "config.fileConfig.Reload", "every trigger has returned and one of them began after the last change to the sources, but the running config is %s/%s and the sources hold %s/%s (cfg variant %d, rules variant %d)", short(mh), short(rh), short(fm), short(fr), w.curCfg, w.curRules)
+	}
+}
+
 func short(h string) string {
 	if len(h) > 6 {
 		return h[:6]
@@ -221,6 +276,13 @@ func runConfig(t *testing.T, p *Plan) *Outcome {
 		w.write("cfg", 0)
 		w.write("rules", 0)
 		w.opts = &config.CmdEnv{ConfigLocations: []string{filepath.Join(dir, "cfg.yaml")}, RulesLocations: []string{filepath.Join(dir, "rules.yaml")}}
+		if p.On("url") {
+			w.opts = &config.CmdEnv{ConfigLocations: []string{"http://config-source/cfg.yaml"}, RulesLocations: []string{"http://config-source/rules.yaml"}}
+			old := http.DefaultClient.Transport
+			http.DefaultClient.Transport = w
+			defer func() { http.DefaultClient.Transport = old }()
+			out.Probe("sources_are_urls")
+		}
 		cfg, err := config.NewConfig(w.opts)
 		if cfg == nil {
 			out.Harness = fmt.Sprintf("base config rejected: %v", err)
@@ -241,6 +303,7 @@ func runConfig(t *testing.T, p *Plan) *Outcome {
 		if p.On("concurrent") {
 			sched := NewTaskSched(p.Seed, out)
 			sched.Stickiness = float64(p.N["stick_pct"]) / 100
+			w.fetchYield = func() { sched.Yield("config.fetch") }
 			simhook.SetYield(func(site string) {
 				sched.Yield(site)
 				if site == "config.Reload.read" {
@@ -269,9 +332,13 @@ func runConfig(t *testing.T, p *Plan) *Outcome {
 					for _, op := range ops {
 						switch op.K {
 						case "trigger":
+							w.seq++
+							w.lastTrigger = w.seq
 							cfg.Reload()
 						case "write":
 							w.write(op.S, int(op.N))
+							w.seq++
+							w.lastWrite = w.seq
 						}
 						sched.Yield("between")
 					}
@@ -281,7 +348,9 @@ func runConfig(t *testing.T, p *Plan) *Outcome {
 			if out.Probes["task_switch"] > 0 && out.Probes["preempted_inside_operation"] > 0 {
 				out.Probe("concurrent_reloads_interleaved")
 			}
+			w.fetchYield = nil
 			w.check("after all concurrent triggers")
+			w.checkNewest()
 			return
 		}
 		// sequential history through the real watcher
